@@ -555,6 +555,8 @@ theorem facCreatePair_tr {w w' : World} {sender : Nat} {a0 a1 : Asset} {req : Re
   obtain ⟨d0, _, d1, _, h⟩ := h
   split at h
   · cases h
+  split at h
+  · cases h
   injection h with h
   subst h
   refine .quiet ?_ ?_ ⟨?_, rfl, ?_, ?_⟩
@@ -599,8 +601,8 @@ theorem facExec_tr {w w' : World} {s : Nat} {funds : List (Nat × Nat)} {m : Fac
   have htok := (attach_same h0).2
   have hpair := (attach_same h0).1.pair
   cases m with
-  | updateConfig o =>
-    have h : facUpdateConfig w0 s o = .ok w' := h
+  | updateConfig o tc pc =>
+    have h : facUpdateConfig w0 s o tc pc = .ok w' := h
     unfold facUpdateConfig at h
     split at h
     · cases h
@@ -611,9 +613,11 @@ theorem facExec_tr {w w' : World} {s : Nat} {funds : List (Nat × Nat)} {m : Fac
     obtain ⟨f1, f2, f3⟩ := hfresh a0 a1 req comm np nl rfl
     exact facCreatePair_tr h (by rw [hpair]; exact f1) (by rw [htok]; exact f2) f3
   | addDecimals d k => exact facAddDecimals_tr h
-  | migratePair p =>
-    have h : facMigratePair w0 s p = .ok w' := h
+  | migratePair p c =>
+    have h : facMigratePair w0 s p c = .ok w' := h
     unfold facMigratePair at h
+    split at h
+    · cases h
     split at h
     · cases h
     split at h
